@@ -17,7 +17,7 @@ struct Cfg {
     behaviour: &'static str,      // detect: pass|pass_plan|fail|error ; build: pass|error
     parts: Vec<&'static str>,
     preexisting: bool,
-    platform: u8,                 // 0 = no env dir, 1 = rich env dir
+    platform: u8,                 // 0 = no env dir, 1 = rich env dir, 2 = a value that is not valid UTF-8
     store: &'static str,          // absent | valid | malformed | dangling | binary (not UTF-8) | directory | loop (symlink to itself)
     plan_file: &'static str,      // ok | missing | binary
     same_len: bool,               // pre-existing outputs with the same LENGTH as the new ones, other bytes
@@ -91,6 +91,11 @@ fn run_one(exe_rtbp: &Path, c: &Cfg, r: &mut Report) {
         symlink(root.join("nowhere-at-all"), e.join("AAA_DANGLING")).unwrap(); symlink(root.join("nowhere-at-all"), e.join("M_DANGLING")).unwrap(); // dangling links: not variables, and no reason to lose the others
         expected_env.sort();
     }
+    if c.platform == 2 {
+        // a variable whose VALUE is not valid UTF-8 cannot be represented: a reported error, never silently altered
+        let e = platform.join("env"); fs::create_dir_all(&e).unwrap();
+        fs::write(e.join("GOOD"), b"1").unwrap(); fs::write(e.join("LATIN1"), b"caf\xe9").unwrap();
+    }
     let plan_out = root.join("plan-out.toml");     // detect's <buildplan>
     let bp_plan = root.join("bp-plan.toml");       // build's <plan>
     match c.plan_file { "ok" => fs::write(&bp_plan, PLAN_TEXT).unwrap(), "binary" => fs::write(&bp_plan, [0xff, 0xfe, 0x00]).unwrap(), _ => {} }
@@ -144,7 +149,7 @@ fn run_one(exe_rtbp: &Path, c: &Cfg, r: &mut Report) {
     // ---- the decision table (executable form of exit_table)
     let gate_closed = c.toml != "ok" || !["detect", "build"].contains(&c.exe) || c.argc_delta != 0;
     let mandatory_missing = !c.missing_var.is_empty() && !c.missing_var.ends_with('=') && c.missing_var != "CNB_TARGET_ARCH_VARIANT";
-    let inputs_bad = mandatory_missing || (c.exe == "build" && (c.plan_file != "ok" || ["malformed", "binary", "directory", "loop"].contains(&c.store)));
+    let inputs_bad = mandatory_missing || c.platform == 2 || (c.exe == "build" && (c.plan_file != "ok" || ["malformed", "binary", "directory", "loop"].contains(&c.store)));
     let callback = if c.exe == "build" { "build" } else { "detect" };
     let mut expected_after = before.clone();
     if gate_closed {
@@ -269,6 +274,7 @@ pub fn runtime(thorough: bool) -> Report {
     }
     { let mut c = Cfg::base("build"); c.behaviour = "error"; cfgs.push(c); }
     { let mut c = Cfg::base("build"); c.platform = 0; cfgs.push(c); }
+    for exe in ["detect", "build"] { let mut c = Cfg::base(exe); c.platform = 2; cfgs.push(c); }
     for c in &cfgs { run_one(&exe, c, &mut r); }
     r
 }
